@@ -2,6 +2,7 @@
 # seed_run.sh <patch.diff> <property>... : apply a seeded change to /repo, run the quick checks, undo it
 PATCH=$1; shift
 cd /verif
+export VERIF_EVIDENCE_DIR=/verif/.build/seed-evidence
 git -C /repo apply "$PATCH" || { echo "patch does not apply to /repo"; exit 2; }
 for p in "$@"; do ./check "$p" ${TIER:-quick} | grep -v '^$'; done
 git -C /repo checkout -- . && git -C /repo status --short
